@@ -133,4 +133,84 @@ theorem emitted_while_running (w0 : World) (ops : List Op) (j : Nat) (id tickFn 
   · cases hc.2
   · cases he
 
+/-- `stale_iff_passed`: at a tick that completes with clock `fn`, a message (frame number `m`)
+queued at the running transceiver `j` is
+  * handed to the forwarder iff `m = fn`,
+  * reported stale iff `m ≠ fn ∧ (fn − m) mod 2715648 < 1357824` (its frame has passed),
+  * left in the queue iff `m ≠ fn ∧ (fn − m) mod 2715648 ≥ 1357824` (its frame is still ahead). -/
+theorem stale_iff_passed (w0 : World) (ops : List Op) (j : Nat) (h0 : queueOf w0 j = []) (fn : Nat)
+    (hr : (run w0 ops).1.clkRunning = true) (hs : (run w0 ops).1.clkSrc = some fn)
+    (hrun : runningOf (run w0 ops).1 j = true) (hx : (step (run w0 ops).1 Op.tick).exc = none)
+    (p : Nat × Trxd.TxMsg) (hp : p ∈ (ghost w0 ops j).ids.zip (queueOf (run w0 ops).1 j))
+    (m : Int) (hm : p.2.fn = some m) :
+    (Event.emitted p.1 fn ∈ (ghost w0 (ops ++ [Op.tick]) j).log ↔ m = fn) ∧
+    (Event.stale p.1 fn ∈ (ghost w0 (ops ++ [Op.tick]) j).log ↔
+      m ≠ fn ∧ ((fn : Int) - m) % 2715648 < 1357824) ∧
+    (p.1 ∈ (ghost w0 (ops ++ [Op.tick]) j).ids ↔
+      m ≠ fn ∧ ((fn : Int) - m) % 2715648 ≥ 1357824) := by
+  obtain ⟨h1, h2, h3, -⟩ := ghost_tick_msg w0 ops j h0 hr hs hrun hx hp
+  obtain ⟨c1, c2, c3⟩ := classify_arith fn p.2 m hm
+  exact ⟨h1.trans c1, h2.trans c2, h3.trans c3⟩
+
+/-- `wrap_not_stale`: a burst for FN 0 queued while the clock is at 2715647 (the last frame of the
+hyperframe) is NOT reported stale at the tick 2715647 — it stays queued — and IS emitted at the
+next tick, whose frame number wraps to 0.  (This is what fails if `clck_tick` compares
+`msg.fn < fn` numerically.) -/
+theorem wrap_not_stale (w0 : World) (ops : List Op) (j : Nat) (h0 : queueOf w0 j = [])
+    (hr : (run w0 ops).1.clkRunning = true) (hs : (run w0 ops).1.clkSrc = some 2715647)
+    (hrun : runningOf (run w0 ops).1 j = true) (hx : (step (run w0 ops).1 Op.tick).exc = none)
+    (hx2 : (step (run w0 (ops ++ [Op.tick])).1 Op.tick).exc = none)
+    (p : Nat × Trxd.TxMsg) (hp : p ∈ (ghost w0 ops j).ids.zip (queueOf (run w0 ops).1 j))
+    (hm : p.2.fn = some 0) :
+    (∀ fn', Event.stale p.1 fn' ∉ (ghost w0 (ops ++ [Op.tick]) j).log) ∧
+    p.1 ∈ (ghost w0 (ops ++ [Op.tick]) j).ids ∧
+    (run w0 (ops ++ [Op.tick])).1.clkSrc = some 0 ∧
+    Event.emitted p.1 0 ∈ (ghost w0 (ops ++ [Op.tick] ++ [Op.tick]) j).log := by
+  obtain ⟨-, -, h3, h4⟩ := ghost_tick_msg w0 ops j h0 hr hs hrun hx hp
+  obtain ⟨-, -, c3⟩ := classify_arith 2715647 p.2 0 hm
+  have hw : classify 2715647 p.2 = .wait := c3.mpr (by decide)
+  have hid := h3.mpr hw
+  have hclk : (run w0 (ops ++ [Op.tick])).1.clkSrc = some 0 :=
+    (ghost_tick_complete w0 ops j h0 hr hs hrun hx).2.2
+  refine ⟨fun fn' hst => ?_, hid, hclk, ?_⟩
+  · exact (exactly_once w0 (ops ++ [Op.tick]) j h0).queued_no_outcome hid (mem_outIds_of_stale hst)
+  · have hr' : (run w0 (ops ++ [Op.tick])).1.clkRunning = true := by
+      rw [run_snoc]; exact (tick_clk _).1.trans hr
+    have hrun' : runningOf (run w0 (ops ++ [Op.tick])).1 j = true := by
+      rw [run_snoc]; exact (tick_running _ j).trans hrun
+    obtain ⟨e1, -⟩ := ghost_tick_msg w0 (ops ++ [Op.tick]) j h0 hr' hclk hrun' hx2 (h4 hw)
+    exact e1.mpr ((classify_arith 0 p.2 0 hm).1.mpr rfl)
+
+/-- a burst whose frame passed 1 … 1357823 frames ago (cyclically) is reported stale at the next
+tick that reaches its transceiver, and is not sent late -/
+theorem passed_is_stale (w0 : World) (ops : List Op) (j : Nat) (h0 : queueOf w0 j = []) (fn : Nat)
+    (hr : (run w0 ops).1.clkRunning = true) (hs : (run w0 ops).1.clkSrc = some fn)
+    (hrun : runningOf (run w0 ops).1 j = true) (hx : (step (run w0 ops).1 Op.tick).exc = none)
+    (p : Nat × Trxd.TxMsg) (hp : p ∈ (ghost w0 ops j).ids.zip (queueOf (run w0 ops).1 j))
+    (m : Int) (hm : p.2.fn = some m) (k : Nat) (hk : 1 ≤ k ∧ k ≤ 1357823)
+    (hpassed : ((fn : Int) - m) % 2715648 = k) :
+    Event.stale p.1 fn ∈ (ghost w0 (ops ++ [Op.tick]) j).log ∧
+    (∀ fn', Event.emitted p.1 fn' ∉ (ghost w0 (ops ++ [Op.tick]) j).log) := by
+  have h := stale_iff_passed w0 ops j h0 fn hr hs hrun hx p hp m hm
+  have hst : Event.stale p.1 fn ∈ (ghost w0 (ops ++ [Op.tick]) j).log :=
+    h.2.1.mpr ⟨by intro e; rw [e] at hpassed; omega, by omega⟩
+  refine ⟨hst, fun fn' hem => ?_⟩
+  have hu := (exactly_once w0 (ops ++ [Op.tick]) j h0).outcome_unique
+  have := outcome_event_unique _ hu _ hst _ hem p.1 rfl rfl
+  cases this
+
+/-- `stale_count_reported`: the number of 'Stale TRXD message' reports of a tick that completes is
+the total number of stale-classified queued messages over all running transceivers. -/
+theorem stale_count_reported (w : World) (fn : Nat) (hr : w.clkRunning = true) (hs : w.clkSrc = some fn)
+    (hx : (step w Op.tick).exc = none) :
+    (step w Op.tick).stale =
+      ((List.range w.trxs.length).map (fun k =>
+        if runningOf w k then ((queueOf w k).filter (fun m => classify fn m == .stale)).length else 0)).sum := by
+  obtain ⟨js1, js2, hjs, -, -, -, h4, h5, -⟩ := tick_spec hr hs
+  obtain ⟨rfl, -⟩ := h5 hx
+  rw [List.append_nil] at hjs
+  simp only [step]
+  rw [h4, hjs]
+  rfl
+
 end OsmoVerif.Props.C03
